@@ -367,7 +367,7 @@ func c06Directed() []struct {
 	// 3. Chrome preset: the peer sends 5 MiB on one stream, inside the advertised 6 MiB window,
 	//    before the caller reads anything
 	add("chrome-receive-window", chrome, cat([]c06Op{S(), open(0, true, 0), ph(0, false)}, rep(321, pd(0, 16384, 0, false)),
-		[]c06Op{rd(0, 1 << 20), rd(0, 8 << 20), pd(0, 100, 0, true), rd(0, 1000)})...)
+		[]c06Op{rd(0, 1<<20), rd(0, 8<<20), pd(0, 100, 0, true), rd(0, 1000)})...)
 	// 4. a PRIORITY fingerprint naming an even stream
 	even := c06Cfg{name: "prio-even", prio: []reqhttp2.PriorityFrame{{StreamID: 2, PriorityParam: reqhttp2.PriorityParam{Weight: 10}}}}
 	add("prio-even", even, S(), open(0, true, 0), open(10, true, 0), feed(1), ph(0, true))
